@@ -35,7 +35,7 @@ def builtinNames : List String :=
   ++ Gen.helperIdents.map (·.1) ++ Gen.helperClosures.map (·.1)
 
 def engineFuncs : List String :=
-  ["Math", "Object", "JSON", "startsWith", "truncate", "stripTags", "capitalize", "trim", "escapeHtml", "parseInt", "vpIdent", "range"]
+  ["Math", "Object", "JSON", "startsWith", "truncate", "stripTags", "capitalize", "trim", "escapeHtml", "parseInt", "vpIdent", "range", "debug", "vpWho"]
 
 def initState (data : Json) : St :=
   let (h, v) := convertData data Heap.empty
@@ -131,7 +131,11 @@ def runRender (c : Json) : Json × Json :=
   | .ok doc =>
     let spec := if jstr c "oracle" == "js-expr" then jsSpec doc (jget c "data")
       else if jstr c "oracle" == "pug" then pugSpec doc (jget c "data")
-      else if jstr c "oracle" == "attrs" then attrSpec doc (jget c "data")
+      else if jstr c "oracle" == "attrs" then
+        -- `spec_doc`: the plain tag that a document reaching its attributes indirectly (mixin call + &attributes(attributes)) must equal
+        (match (jarr c "spec_doc").mapM decNode with
+          | .ok (sd :: rest) => attrSpec (sd :: rest) (jget c "data")
+          | _ => attrSpec doc (jget c "data"))
       else if jstr c "oracle" == "js-heap" then
         (match JS.HeapSpec.run doc (match jsOfJson (jget c "data") with | .obj ps => ps | _ => []) with
           | some s => okOut s
